@@ -1,11 +1,21 @@
 """`codec` family: C35 (encodings round-trip, decoders total) and C47 (stateless validation never panics).
 C47 kinds live in harness/codec/c47_kinds.py (KINDS47: enc returns a Case47 term, wrapped in K47 here)."""
 import os, importlib.util
-from lib.coqgen import N, Z, b, hx, opt, lst
+from lib.coqgen import N, Z, b, opt, lst
+from lib.coqgen import hx as hx_str
+
+def hx(h):
+    """hex string -> bytes term; long strings as packed 63-bit integer literals (Codec/Lit.v [ib]):
+    a Coq string literal costs ~10 term nodes per character to elaborate"""
+    if len(h) <= 16:
+        return hx_str(h)
+    bs = bytes.fromhex(h)
+    ints = [str(int.from_bytes(bs[i:i + 7], "big")) for i in range(0, len(bs), 7)]
+    return "(ib %d [%s]%%uint63)" % (len(bs), ";".join(ints))
 
 NAME = "codec"
 GO_PKG = "./codec"
-COQ_IMPORTS = ("From IBC Require Import Lib.Bytes Lib.Dec Lib.CorrLib Core.Height Codec.Corr35 Codec.Corr35Json Codec.Corr47 Corr.Codec.")
+COQ_IMPORTS = ("From Coq Require Import Uint63. From IBC Require Import Lib.Bytes Lib.Dec Lib.CorrLib Core.Height Codec.Lit Codec.Abi Codec.Proto Codec.Corr35 Codec.Corr35Json Codec.Corr47 Corr.Codec.")
 CASE_TYPE = "Case"
 CHECK = "check"
 
@@ -121,10 +131,10 @@ def spec_abi_ftpd_rt(r):
         want = [r["in"][0], str(a).encode().hex(), r["in"][2], r["in"][3], r["in"][4]]
         if d is None or d["r"] != "ok" or d["v"] != want:
             return "ABI round trip changed the transfer: encoded %s, decoded %s" % (r["in"], d)
-    u = o.get("unmarshal")
-    if u is not None and u["r"] == "ok" and a is not None:
-        if u["v"] != [str(a).encode().hex(), r["in"][2], r["in"][3], r["in"][4]]:
-            return "UnmarshalPacketData(ABI) returned a different transfer than was encoded: %s -> %s" % (r["in"], u["v"])
+        u = o.get("unmarshal")
+        if u is not None and u["r"] == "ok":
+            if u["v"] != [str(a).encode().hex(), r["in"][2], r["in"][3], r["in"][4]]:
+                return "UnmarshalPacketData(ABI) returned a different transfer than was encoded: %s -> %s" % (r["in"], u["v"])
 
 def spec_dec_nopanic(what):
     def f(r):
@@ -288,6 +298,8 @@ def _load(fname):
     spec = importlib.util.spec_from_file_location(fname[:-3], p)
     m = importlib.util.module_from_spec(spec)
     spec.loader.exec_module(m)
+    if hasattr(m, "hx"):
+        m.hx = hx      # same packed byte-string literals for the sub-files' encoders
     return m
 
 def _wrap(ctor, f):
